@@ -696,3 +696,13 @@ Theorem C04_relax_allocation_insufficient_with_too_high_cut :
     (max_secondary 2 shells 10%R 1%R < emitted 1%R 1%R l)%nat.
 Proof. exact allocation_insufficient_with_too_high_cut. Qed.
 Print Assumptions C04_relax_allocation_insufficient_with_too_high_cut.
+
+(** IoniFinalStateHelper, primary stopped by the collision (T_e = E; Bhabha at eps = 1): since /repo a57af2a the primary keeps
+    the incident direction -- a unit vector -- instead of the un-normalisable zero momentum difference (0/0 = NaN before) *)
+Theorem C04_ioni_outputs_valid_stopped_primary : forall (e_inc m_inc m_e : R) dir s r s',
+  0 < m_e <= m_inc -> 0 < e_inc -> e_inc <= tmax_R m_inc e_inc m_e -> unitv dir ->
+  ioni_final e_inc dir (sqrt (e_inc * e_inc + 2 * m_inc * e_inc)) m_inc e_inc m_e s = Some (r, s') ->
+  i_action r = Scattered /\ i_energy r = 0 /\ i_dir r = dir /\ unitv (i_dir r) /\ i_deposit r = 0 /\
+  exists sec, i_secs r = [sec] /\ s_pid sec = PElectron /\ s_energy sec = e_inc /\ unitv (s_dir sec).
+Proof. exact ioni_outputs_valid_stopped_primary. Qed.
+Print Assumptions C04_ioni_outputs_valid_stopped_primary.
